@@ -1,0 +1,23 @@
+//go:build verif
+
+package graphql
+
+import "github.com/graphql-go/graphql/language/ast"
+
+// VerifPlanCacheLen reports, under the cache's own lock, how many entries
+// the map and the LRU list hold. Only built with the verif tag.
+func VerifPlanCacheLen(c *PlanCache) (entries int, order int) {
+	if c == nil {
+		return 0, 0
+	}
+	c.mu.Lock()
+	defer c.mu.Unlock()
+	return len(c.entries), c.order.Len()
+}
+
+// VerifNormalizeDocument exposes normalizeDocument so a monitor can check
+// that normalisation leaves the caller's document untouched. Only built
+// with the verif tag.
+func VerifNormalizeDocument(schema *Schema, doc *ast.Document, operationName string) (*ast.Document, map[string]interface{}, string, error) {
+	return normalizeDocument(schema, doc, operationName)
+}
